@@ -3,11 +3,15 @@ import CashewsVerif.Spec.TtlMap
 Shared vocabulary of the C14 decorator models (early / soft / failover / hit).
 
 The wrapped function is not code but a *script of outcomes*: every call operation carries the
-outcome its execution would have (used iff the call really executes the function), and every
-completion of a background refresh carries the outcome of that refresh.  A successful execution
-returns a fresh token `(stamp, id)`: `stamp` is the virtual instant at which it completed (= the
-instant its result is stored), `id` the ordinal of the execution.  Served age can therefore be
-read off the served value.
+outcome its execution would have (used iff the call really executes the function) and the DURATION `d`
+of that execution (virtual ticks that pass while the function body runs inside the call: everything the
+decorator does before `await func(...)` happens at the instant the call began, everything it does after it
+— and the answer itself — `d` ticks later), and every completion of a background refresh carries the outcome
+of that refresh (its duration is the time that passed between the call that created the task and the `done`).
+A successful execution returns a fresh token `(stamp, id)`: `stamp` is the virtual instant at which it
+completed (= the instant its result is stored), `id` the ordinal of the execution.  Served age can therefore
+be read off the served value and is judged at the instant the value is handed out (`servedAt`).
+A call is atomic: nothing else happens to its key while its function body runs (concurrent callers are C07).
 
 All four models act on one cache key (one argument tuple of the decorated function; different
 argument tuples use disjoint keys and do not interact) plus one auxiliary key:
@@ -84,10 +88,15 @@ structure CallOut where
 
 /-- operations of a history -/
 inductive DOp where
-  | call (o : Outcome)             -- one call of the decorated function
+  | call (o : Outcome) (d : Nat)   -- one call of the decorated function; IF the function body runs inside the call
+                                   -- (in the foreground) it takes `d` ticks before it returns / raises `o`
   | adv (dt : Nat)                 -- virtual time passes
   | done (i : Nat) (o : Outcome)   -- the i-th oldest background refresh in flight completes
   deriving DecidableEq, Repr
+
+/-- the instant at which a call that began at `start` hands out its answer: `d` ticks later iff the function body
+ran inside the call (every model proves `(call …).1.t.now = servedAt …`: the clock after the call) -/
+def servedAt (start d : Nat) (out : CallOut) : Nat := if out.exec then start + d else start
 
 inductive DoneRes where
   | noop      -- no such refresh in flight
